@@ -182,3 +182,33 @@ func verifHarness_C07_T() {
 	verifAssert(tss[1] >= tss[0], "C07/T/timestamps-never-decrease")
 	verifReach("C07/T")
 }
+
+// W: a dialect message with any 24-bit id above 255 on a version 2 link: the three id bytes and a checksum that covers
+// all three (CRC_EXTRA seed "VERIF_BIG_I_D uint8_t v ")
+func verifHarness_C09_wide_id(raw int) {
+	id := verifNondetU32()
+	verifAssume(id > 255 && id < 1<<24)
+	frame.VerifBigID = id
+	rec := &frame.VerifRecWriter{}
+	fw := &frame.Writer{ByteWriter: rec, DialectRW: frame.VerifDialectWithBigRW()}
+	verifAssert(fw.Initialize() == nil, "C09/W/frame-writer-init")
+	sys, s := verifNondetU8(), verifNondetU8()
+	verifAssume(sys >= 1)
+	w := &Writer{FrameWriter: fw, Version: V2, SystemID: sys}
+	verifAssert(w.Initialize() == nil, "C09/W/init")
+	w.nextSeqNumber = s
+	v := verifNondetU8()
+	var msg message.Message = &frame.MessageVerifBigID{V: v}
+	if raw == 1 {
+		msg = &message.MessageRaw{ID: id, Payload: []byte{v}}
+	}
+	verifAssert(w.Write(msg) == nil, "C09/W/write-ok")
+	c := verifCrcFold(0xFFFF, []byte("VERIF_BIG_I_D uint8_t v "))
+	extra := byte(c&0xFF) ^ byte(c>>8)
+	payload := []byte{v}
+	ck := frame.VerifSpecChecksumV2(0, 0, s, sys, 1, id, payload, extra)
+	exp := frame.VerifSpecV2(0, 0, s, sys, 1, id, payload, ck, false, 0, 0, nil)
+	verifObserveBytes("C09/W/wire", rec.Buf())
+	verifAssert(verifEqBytes(rec.Buf(), exp), "C09/W/wire-is-spec-frame-for-a-24-bit-id")
+	verifReach("C09/W")
+}
